@@ -16,7 +16,7 @@ def budget_ms(n, m, p4="sink"):
     sz = n + m
     if p4 == "nspos":
         return 2000 + ((sz * sz) // 200) * sz * sz if sz <= 300 else 2000000000
-    return 2000 + ((sz * sz) // 100) * sz
+    return 2000 + ((sz * sz) // 100) * sz if sz <= 1200 else 2000000000
 
 
 def grid(**axes):
@@ -317,11 +317,26 @@ def c13_cases(tier, rng):
         rnd += [K.caterpillar(n, d) for n in (10, 25, 60)] + [K.binary_tree(k, d) for k in (3, 4, 5, 6)]
     for (n, e), cb in rotate(rnd, combos, 1 if tier == "quick" else 2, rng):
         yield apply(n, e, cb)
+    # spiders and brooms of 8-17 nodes (a thin branch next to a branch ending in a star of leaves), every branch profile of
+    # the table x several edge orders; the network-simplex positioner gets the larger share because its balancing pass is
+    # the one that moves whole subtrees
+    profiles = [((a1, b1), (a2, b2)) for a1 in (1, 2, 3) for b1 in (0, 2, 4) for a2 in (1, 2, 3) for b2 in (0, 3, 4)]
+    profiles += [((2, 0), (2, 3), (1, 2)), ((3, 0), (2, 4), (1, 0)), ((1, 4), (3, 0), (2, 2)), ((2, 2), (2, 2), (2, 2))]
+    combos_b = grid(p1=["dfs"], p2=["ns"], p4=["nspos", "nspos", "sink", "valign"], p5=["poly"], size=["fixed", "all"], pat=["het"], ns=[2, 10])
+    brooms = []
+    for prof in profiles:
+        if 1 + sum(a + b for a, b in prof) > 17:
+            continue
+        for d in ("out", "in"):
+            for _ in range(4 if tier == "quick" else 20):
+                brooms.append(K.broom(rng, prof, d))
+    for (n, e), cb in rotate(brooms, combos_b, 2, rng):
+        yield apply(n, e, cb)
 
 
 RULES = {
     "C12": "simple graphs: S(5,6) lists with >= 5 edges (TLC-generated, sampled in quick), random simple graphs of 6-30 nodes, complete bipartite graphs, and twisted ladders with 66-130 layers (layer indices >= 64) x both layerers x size-aware positioners x Polyline, with a recording monitor; TLC recounts the crossings of the returned drawing per pair of adjacent bands (strict inversions of segment end points) and compares with the sum of the reported 'crossings' events; judged when every polyline has one point per band it touches; non-trivial = reported count > 0",
-    "C13": "every rooted tree on 4-6 nodes (parent functions) in both orientations and every edge order (TLC-generated T4,T5,T6, canonical form), random recursive trees of 7-60 nodes with shuffled edge lists, caterpillars, complete binary trees x both breakers x both layerers x size-aware positioners x Polyline; TLC counts the crossings of the drawing; non-trivial = a node of degree >= 3 and n >= 4",
+    "C13": "every rooted tree on 4-6 nodes (parent functions) in both orientations and every edge order (TLC-generated T4,T5,T6, canonical form), random recursive trees of 7-60 nodes with shuffled edge lists, caterpillars, complete binary trees, spiders and brooms of 8-17 nodes (85 branch profiles x orientation x 4/20 edge orders, half of them with the network-simplex positioner) x both breakers x both layerers x size-aware positioners x Polyline; TLC counts the crossings of the drawing; non-trivial = a node of degree >= 3 and n >= 4",
     "C01": "E(4,4)/E(4,5) x 3-4 random points of the full option grid (3 breakers incl. seeded random greedy x 2 layerers x 9 positioners x 5 routers x 5 size modes x 4 size patterns x NodeSpacing/LayerSpacing {0,1,10} x thoroughness {0,1,default} x virtual-node output x node-ID alphabets {plain, helper-like V<k>/NE<k>, empty/300-char/Unicode/control}), random multigraphs of 5-40 nodes, and size sweeps (chains up to 1000/3000 nodes, ladders with 66-130 layers, bipartite, grid, binary trees, random graphs up to 90/150 nodes); each case runs in an isolated worker with a wall-clock budget equal to the spec's BudgetMs and a heap budget; non-trivial = >= 2 nodes and a non-loop edge",
     "C10": "E(4,4)/E(4,5), 5-node simple lists of S(5,6), random connected DAGs (5-12 nodes), random multigraphs (6-40 nodes), complete bipartite and grid DAGs x both breakers x NetworkSimplex x thoroughness {default,1,4}; the optimum is MinTotalSpan (brute force in TLC) for n <= 5 and an LP-duality certificate checked in TLC (CertOK) beyond; runs that ended on the iteration cap (hook) are not judged; non-trivial = at least one pivot executed",
     "C11": "E(4,4)/E(4,5) x both breakers x LongestPath x two positioners, plus random multigraphs and random connected DAGs up to 30 nodes; band-from-bottom of every node compared by TLC with the longest path to a sink (GraphOps!HeightToSink) in the drawn orientation; non-trivial = a component with >= 3 nodes and >= 2 bands",
